@@ -49,8 +49,8 @@ func Addr(t int) []multiaddr.Multiaddr {
 
 // AddrTag is the inverse of Addr (-1 when the list is not of that form).
 func AddrTag(a []multiaddr.Multiaddr) int {
-	if len(a) != 1 {
-		return -1
+	if len(a) < 1 {
+		return -1 // (a list with several addresses is named by its first)
 	}
 	parts := strings.Split(a[0].String(), "/")
 	if len(parts) < 3 || parts[1] != "ip4" {
